@@ -183,6 +183,9 @@ func init() {
 		"math.Exp":                     func(fr *frame, a []value) value { return math.Exp(a[0].(float64)) },
 		"math.Ldexp":                   func(fr *frame, a []value) value { return math.Ldexp(a[0].(float64), a[1].(int)) },
 		"os.Getenv":                    func(fr *frame, a []value) value { return "" },
+		"os.Getwd":                     func(fr *frame, a []value) value { return tuple{"/vx", iface{}} },
+		"os.Getpid":                    func(fr *frame, a []value) value { return 4242 },
+		"os.Hostname":                  func(fr *frame, a []value) value { return tuple{"vxhost", iface{}} },
 		"os.Exit": func(fr *frame, a []value) value {
 			fr.i.event("os.Exit")
 			panic(pathAbort{"fatal", "os.Exit"})
@@ -246,6 +249,25 @@ func init() {
 		"github.com/golang/protobuf/proto.RegisterType":         extNop,
 		"github.com/golang/protobuf/proto.RegisterFile":         extNop,
 		"github.com/golang/protobuf/proto.RegisterEnum":         extNop,
+
+		"github.com/henrylee2cn/erpc/v6.GenerateTLSConfigForServer": func(fr *frame, a []value) value { return (*value)(nil) },
+		"github.com/henrylee2cn/erpc/v6.GenerateTLSConfigForClient": func(fr *frame, a []value) value { return (*value)(nil) },
+
+		// ---- goroutine pool of the framework (stub S-GO): plain spawn
+		"github.com/henrylee2cn/goutil/pool.NewGoPool": func(fr *frame, a []value) value { return (*value)(nil) },
+		"(*github.com/henrylee2cn/goutil/pool.GoPool).Go": func(fr *frame, a []value) value {
+			fr.i.goStmt(fr, 0, a[1], nil)
+			return iface{}
+		},
+		"(*github.com/henrylee2cn/goutil/pool.GoPool).TryGo": func(fr *frame, a []value) value {
+			fr.i.goStmt(fr, 0, a[1], nil)
+			return nil
+		},
+		"(*github.com/henrylee2cn/goutil/pool.GoPool).MustGo": func(fr *frame, a []value) value {
+			fr.i.goStmt(fr, 0, a[1], nil)
+			return iface{}
+		},
+		"(*github.com/henrylee2cn/goutil/pool.GoPool).Stop": extNop,
 
 		// ---- unsafe string helpers of the code base
 		"github.com/henrylee2cn/goutil.BytesToString": extBytesToStringAlias,
